@@ -982,12 +982,16 @@ func modeTotal(seed uint64, n int, out *sx.Out) {
 	// the value word of every numeric field of a few typical rules replaced by the values printers index tables with:
 	// every S_IFMT nibble and its neighbours, every perm value, errno and record-type table edges; both printers
 	for _, base := range []string{
-		"-a always,exit -F filetype=file -F perm=r -F exit=-2 -F msgtype=1300 -F uid=0 -F a0=1 -S open -k k",
-		"-a always,exit -F arch=b64 -S 2 -F success=1 -F auid!=4294967295 -F sessionid=3 -F obj_uid=1",
+		"-a always,exit -F filetype=file -F perm=r -F exit=-2 -F uid=0 -F a0=1 -S open -k k",
+		"-a always,exit -F arch=b64 -S 2 -F success=1 -F auid!=4294967295 -F obj_uid=1",
+		"-a always,exit -F arch=b32 -S open -F exit=-EPERM -F filetype=dir -F gid=0 -F pers=1",
+		"-a always,exclude -F msgtype=1300",
 		"-w /etc/passwd -p wa -k w",
 	} {
 		b, err := buildLine(base)
 		if err != nil {
+			// a base the code does not build is a mistake of this harness, not something to skip quietly
+			out.Case(fmt.Sprintf("TLine %s OPanic", cs("value-word sweep: base rule not built: "+base)), map[string]interface{}{"line": base, "err": err.Error()}, "value-word-sweep/base-not-built", true)
 			continue
 		}
 		nf := int(binary.LittleEndian.Uint32(b[8:]))
@@ -1023,6 +1027,7 @@ func modeTotal(seed uint64, n int, out *sx.Out) {
 	} {
 		b, err := buildLine(base)
 		if err != nil {
+			out.Case(fmt.Sprintf("TLine %s OPanic", cs("string-length sweep: base rule not built: "+base)), map[string]interface{}{"line": base, "err": err.Error()}, "string-length-sweep/base-not-built", true)
 			continue
 		}
 		nf := int(binary.LittleEndian.Uint32(b[8:]))
